@@ -559,26 +559,57 @@ Proof.
 Qed.
 
 (* ---- the budget along a history ---- *)
-Definition budget_next (st : state) (B : Z -> Z -> Z) (o : op) (st' : state) : Z -> Z -> Z :=
+Definition budget_locktokens (st : state) (B : Z -> Z -> Z) (owner d dur : Z) : Z -> Z -> Z :=
+  match find_existing st owner d dur (ids_upto (s_last st)) with Some id => budget_topup st B id | None => B end.
+
+Definition budget_next (cfg : config) (st : state) (B : Z -> Z -> Z) (o : op) (st' : state) : Z -> Z -> Z :=
   match o with
   | OEpoch _ _ => conn_cnt st'
   | OTopUp _ id _ => budget_topup st B id
+  | OLockTokens owner d _ dur => budget_locktokens st B owner d dur          (* a top-up when a matching lock exists *)
+  | OLockAndDelegate owner d _ _ => budget_locktokens st B owner d (c_unb cfg)
   | _ => B
   end.
 
+Lemma new_lock_dinv : forall cfg st B l, linv cfg st -> dinv cfg st B ->
+  dinv cfg (set_last (put_lock st (s_last st + 1) l) (s_last st + 1)) B.
+Proof.
+  intros cfg st B l I D. pose proof (fresh_id _ _ (s_last st + 1) I ltac:(lia)) as [_ [_ F3]].
+  apply (dinv_unconn cfg st _ B D); [reflexivity|right; ssimpl; repeat split; [apply (L_last _ _ I)|assumption]|].
+  intros id0 Hn. ssimpl. apply upd1_other. destruct (s_conn st id0) as [k|] eqn:Ec; [|contradiction].
+  pose proof (conn_rng _ _ _ _ I Ec). lia.
+Qed.
+
+Lemma lock_tokens_dinv : forall cfg st B owner d amt dur st' id, wf_cfg cfg -> linv cfg st -> dinv cfg st B ->
+  lock_tokens cfg st owner d amt dur = Ok (st', id) -> dinv cfg st' (budget_locktokens st B owner d dur).
+Proof.
+  intros cfg st B owner d amt dur st' id W I D H. apply lock_tokens_cases in H. unfold budget_locktokens.
+  destruct H as [[-> H]|[-> [Ha [Hd [_ ->]]]]].
+  - eapply add_tokens_dinv; eassumption.
+  - apply new_lock_dinv; assumption.
+Qed.
+
 Theorem step_dinv : forall cfg st B o st' nid,
-  wf_cfg cfg -> linv cfg st -> dinv cfg st B -> step cfg st o = Ok (st', nid) -> dinv cfg st' (budget_next st B o st').
+  wf_cfg cfg -> linv cfg st -> dinv cfg st B -> step cfg st o = Ok (st', nid) -> dinv cfg st' (budget_next cfg st B o st').
 Proof.
   intros cfg st B o st' nid W I D H. destruct o; cbn [step] in H; unfold bind in H; cbn [budget_next].
   - (* OLock *)
-    destruct ((amt <=? 0) || (dur <? 0)) eqn:E; [discriminate|]. injection H as <- _.
-    pose proof (fresh_id _ _ (s_last st + 1) I ltac:(lia)) as [_ [_ F3]].
-    apply (dinv_unconn cfg st _ B D); [reflexivity|right; ssimpl; repeat split; [apply (L_last _ _ I)|assumption]|].
-    intros id0 Hn. ssimpl. apply upd1_other. destruct (s_conn st id0) as [k|] eqn:Ec; [|contradiction].
-    pose proof (conn_rng _ _ _ _ I Ec). lia.
+    destruct ((amt <=? 0) || (dur <? 0)) eqn:E; [discriminate|]. injection H as <- _. apply new_lock_dinv; assumption.
   - (* OTopUp *)
     destruct (add_tokens_to_lock cfg st owner id amt) as [s|] eqn:E; [|discriminate]. injection H as <- _.
     eapply add_tokens_dinv; eassumption.
+  - (* OLockTokens *) eapply lock_tokens_dinv; eassumption.
+  - (* OLockAndDelegate *)
+    unfold lock_and_delegate, bind in H. destruct (lock_tokens cfg st owner denom amt (c_unb cfg)) as [[s1 i1]|] eqn:E1; [|discriminate].
+    cbn [fst snd] in H. destruct (superfluid_delegate cfg s1 owner i1 v) as [s|] eqn:E; [|discriminate]. injection H as <- _.
+    pose proof (lock_tokens_dinv cfg st B owner denom amt (c_unb cfg) s1 i1 W I D E1) as D1.
+    apply (lock_tokens_linv cfg) in E1; [|assumption].
+    eapply superfluid_delegate_dinv; eassumption.
+  - (* OCreateAndDelegate *)
+    unfold create_and_delegate, bind in H. destruct (Z.leb_spec amt 0); [discriminate|].
+    match type of H with match ?c with _ => _ end = _ => destruct c as [s|] eqn:E; [|discriminate] end. injection H as <- _.
+    eapply superfluid_delegate_dinv; [eassumption| |apply new_lock_dinv; eassumption|eassumption].
+    apply new_lock_linv; cbn; try assumption; try lia. apply W.
   - (* ODelegate *)
     destruct (superfluid_delegate cfg st sender id v) as [s|] eqn:E; [|discriminate]. injection H as <- _.
     eapply superfluid_delegate_dinv; eassumption.
